@@ -262,6 +262,37 @@ theorem convert_steps_contract (ms : List Mapping) (hwf : ∀ m, m ∈ ms → wf
   rcases effectiveVersion_obj hvb with ⟨kvs, rfl, _⟩
   exact c17_step_contract_top m (hwf m (List.mem_of_getElem? hm)) kvs d' a _ hc hs
 
+/-- **convert_fn_error_propagates**: whatever a user function raises on the arguments loop 1 hands it (the values
+    the entries written before it left) is what `_convert` raises — for every user function, nothing is swallowed -/
+theorem convert_fn_error_propagates (mp mr : Mapping) (k : String) (g : UserFn) (args : List String)
+    (b op : Obj) (e : Err) (hp : loop1 (compileMap mp) b b = .ok op)
+    (hg : g ((if args.isEmpty then [k] else args).map fun a => getD a op) = .error e) :
+    convert (mp ++ (k, .fn g args) :: mr) (.obj b) = .error e := by
+  simp only [convert, convShape, compileMap_append, loop1_append, hp, bindE_ok, compileMap, Entry.compile, loop1,
+    step1, hg, bindE_error]
+
+/-- … and when it answers, the key holds the answer (no other entry for the key): the FunctionCall clause spelled
+    out for an arbitrary user function `g` -/
+theorem convert_fn_result (mp mr : Mapping) (k : String) (g : UserFn) (args : List String) (b : Obj) (r : Json)
+    (hu1 : ∀ e', (k, e') ∉ mp) (hu2 : ∀ e', (k, e') ∉ mr)
+    (h : convert (mp ++ (k, .fn g args) :: mr) (.obj b) = .ok r) :
+    ∃ op a v, loop1 (compileMap mp) b b = .ok op ∧ r = .obj a
+      ∧ g ((if args.isEmpty then [k] else args).map fun x => getD x op) = .ok v ∧ get k a = some v := by
+  rcases c17_convert_unfold h with ⟨o1, h1, rfl⟩
+  rcases c17_loop1_at mp mr b b o1 (fun e' he' => absurd he' (hu2 e')) h1 with ⟨op, o2, hp, hs2, hg⟩
+  simp only [Entry.compile, step1] at hs2
+  rcases bindE_eq_ok hs2 with ⟨v, hv, hs3⟩
+  cases hs3
+  have hall : ∀ e', (k, e') ∈ mp ++ (k, Entry.fn g args) :: mr → e' = Entry.fn g args := by
+    intro e' he'
+    rcases c17_mem_split he' with h' | h' | h'
+    · exact absurd h' (hu1 e')
+    · exact h'
+    · exact absurd h' (hu2 e')
+  refine ⟨op, _, v, hp, rfl, hv, ?_⟩
+  rw [c17_after_eq o1 (fun e' he' => by rw [hall e' he']; rfl) (fun e' he' => by rw [hall e' he']; rfl), hg,
+    get_set_same]
+
 /-- the contract is not vacuous: on a mapping with a rename, a Constant, a FunctionCall and a nested `._mapper` over a
     list the model's result passes, and tampering with any one of the moved key, the deleted key, the constant, the
     function result, a nested sub-document or an unmentioned key is reported -/
@@ -331,49 +362,54 @@ theorem convert_nonpositive_characterised (ms : List Mapping) (kvs : Obj) (v : I
   User functions are restricted by the capability discipline `FnOk` only (allocate; return an atom, something new
   or something reachable from the arguments) — they may even mutate what they were given. -/
 
-/-- the copy sites of versioned_mapping.py as regenerated from the source all copy -/
-theorem sites_copy_today : AliasC17.Gen.sites.AllCopy := by decide
+/-- the two copy sites `convert_dict`'s intactness rests on — `copy.deepcopy(the_dict)` and
+    `copy.deepcopy(v())` of a Constant's value — copy in the source as regenerated today.  (What `_convert` does with
+    its own argument, deep / shallow / no copy, does not matter: it only ever sees `convert_dict`'s private copy.) -/
+theorem sites_doc_const_copy_today :
+    AliasC17.Gen.sites.doc.copies = true ∧ AliasC17.Gen.sites.const.copies = true := by decide
 
-/-- no statement of `_convert` / `convert_dict` writes through a parameter object (or an un-copied alias of one) -/
-theorem no_param_writes_today : AliasC17.Gen.paramWrites = [] := by decide
+/-- no statement of `convert_dict` / `_convert` writes through an object of the caller (`the_dict`,
+    `versions_mapping`, a mapping, a `FunctionCall`) or an un-copied alias of one -/
+theorem no_doc_writes_today : AliasC17.Gen.docWrites = [] := by decide
 
-/-- the `._mapper` branch stores only recursive conversions (copies) of the content it reads from its input -/
-theorem nested_reads_input_today : AliasC17.Gen.nestedReadsInput = true := by decide
-
-/-- **convert_input_intact**: for every history (any nesting, any `FnOk` user functions), every heap and document:
-    `convert_dict` changes no cell that existed before the call (the caller's document, the mapping objects, the
-    Constant values) — also when it raises midway; the result lives entirely in cells allocated by the call, so no
-    cell reachable from it is reachable from any pre-existing root; whatever the caller later does to the result
-    cannot change anything that existed before, and whatever it does to old objects cannot change the result -/
-theorem convert_input_intact (A : AliasC17.Atoms) {S : AliasC17.Sites} (hS : S.AllCopy) (fuel : Nat)
-    (ver : Nat → Int) (ms : List AliasC17.HMapping) (hm : ∀ m, m ∈ ms → AliasC17.mapFnsOk m) :
+/-- **convert_input_intact**: for every history (any nesting, any `FnOk` user functions), every heap and document,
+    and EVERY way `_convert` may copy or not copy its own argument: `convert_dict` changes no cell that existed
+    before the call (the caller's document, the mapping objects, the Constant values) — also when it raises midway;
+    the result lives entirely in cells allocated by the call, so no cell reachable from it is reachable from any
+    pre-existing root; whatever the caller later does to the result cannot change anything that existed before,
+    and whatever it does to old objects cannot change the result -/
+theorem convert_input_intact (A : AliasC17.Atoms) {S : AliasC17.Sites} (hd : S.doc.copies = true)
+    (hc : S.const.copies = true) (fuel : Nat) (ver : Nat → Int) (ms : List AliasC17.HMapping)
+    (hm : ∀ m, m ∈ ms → AliasC17.mapFnsOk m) :
     AliasC17.IntactFor (AliasC17.hConvertDict A S fuel ver ms) :=
-  AliasC17.hConvertDict_intact A hS fuel ver ms hm
+  AliasC17.hConvertDict_intact_weak A hd hc fuel ver ms hm
 
 /-- … with the copy sites the source has today -/
 theorem convert_input_intact_today (A : AliasC17.Atoms) (fuel : Nat) (ver : Nat → Int)
     (ms : List AliasC17.HMapping) (hm : ∀ m, m ∈ ms → AliasC17.mapFnsOk m) :
     AliasC17.IntactFor (AliasC17.hConvertDict A AliasC17.Gen.sites fuel ver ms) :=
-  AliasC17.hConvertDict_intact A sites_copy_today fuel ver ms hm
+  AliasC17.hConvertDict_intact_weak A sites_doc_const_copy_today.1 sites_doc_const_copy_today.2 fuel ver ms hm
 
-/-- the same for one `_convert` (nested `._mapper` conversion included) -/
-theorem step_input_intact_today (A : AliasC17.Atoms) (fuel : Nat) (m : AliasC17.HMapping)
-    (hm : AliasC17.mapFnsOk m) : AliasC17.IntactFor (AliasC17.hConvert A AliasC17.Gen.sites fuel m) :=
-  AliasC17.hConvert_intact A sites_copy_today.2.1 sites_copy_today.2.2 fuel m hm
+/-- the same for one `_convert` on its own (nested `._mapper` conversion included), when it deep-copies its
+    argument and the Constant values (a statement about the private helper; no obligation of today's source) -/
+theorem step_input_intact (A : AliasC17.Atoms) {S : AliasC17.Sites} (hst : S.step.copies = true)
+    (hc : S.const.copies = true) (fuel : Nat) (m : AliasC17.HMapping)
+    (hm : AliasC17.mapFnsOk m) : AliasC17.IntactFor (AliasC17.hConvert A S fuel m) :=
+  AliasC17.hConvert_intact A hst hc fuel m hm
 
 /-- unfolded: the converted document shares no cell with anything the caller held before -/
-theorem convert_result_disjoint (A : AliasC17.Atoms) {S : AliasC17.Sites} (hS : S.AllCopy) (fuel : Nat)
+theorem convert_result_disjoint (A : AliasC17.Atoms) {S : AliasC17.Sites} (hd : S.doc.copies = true)
+    (hc : S.const.copies = true) (fuel : Nat)
     (ver : Nat → Int) (ms : List AliasC17.HMapping) (hm : ∀ m, m ∈ ms → AliasC17.mapFnsOk m)
     (h : Alias.Heap) (doc : Alias.Item) (h' : Alias.Heap) (res : Alias.Item)
     (e : AliasC17.hConvertDict A S fuel ver ms h doc = (h', some res)) (cb : Alias.ClosedBelow h.next h)
     (K : List Nat) (hK : ∀ r, r ∈ K → r < h.next) :
     ∀ b, Alias.Held h' (AliasC17.roots res) b → (h.next ≤ b ∧ b < h'.next) ∧ ¬ Alias.Held h' K b :=
-  AliasC17.hConvertDict_disjoint A hS fuel ver ms hm h doc h' res e cb K hK
+  AliasC17.hConvertDict_disjoint_weak A hd hc fuel ver ms hm h doc h' res e cb K hK
 
 /-- non-vacuity / the hypotheses are needed (kernel-evaluated on a small heap): with all three sites copying the
-    call succeeds, leaves the old cells alone and shares nothing; without the `deepcopy` in `_convert` a
-    Constant/Deleted mapping writes into the caller's document; without the `deepcopy` of the Constant's value the
-    result contains the Constant's own list; a user function returning a global object shares it -/
+    call succeeds, leaves the old cells alone and shares nothing; a `_convert` WITHOUT its own `deepcopy`, called
+    directly on a caller's document, writes into it (which is why `convert_dict`'s own copy matters) -/
 theorem heap_examples :
     ((AliasC17.exRun AliasC17.allDeep).2.isSome = true
       ∧ Alias.sameBelow AliasC17.exHeap.next AliasC17.exHeap (AliasC17.exRun AliasC17.allDeep).1 = true
